@@ -340,6 +340,7 @@ class C08(core.PropertyCheck):
         # whitespace variants between program and option (double space, tab, wrapped across source lines)
         (":option:`{f}mongod  --port`", None), (":option:`{f}mongod\t--port`", None), (":option:`{f}mongod\n--port`", None), (":binary:`{f}mongod`", None), (":binary:`{f}bin.mongod`", None),
         (":py:class:`{f}foo.Bar`", None), (":mongodb:setting:`{f}net.port`", None),
+        (":method:`{f}db.coll.aggregate()`", None), (":method:`{f}db.coll.aggregate()`", None),
     ]
 
     def gen_text(self, rng):
@@ -353,6 +354,8 @@ class C08(core.PropertyCheck):
             [".. dbcommand:: find", "", "   cmd", ""],
             [".. program:: mongod", "", ".. option:: --port <n>", "", "   port", ""],
             [".. binary:: mongod", "", "   bin", ""],
+            # a callable whose signature is long enough to wrap
+            [".. method:: db.coll.aggregate(pipeline,", "   options)", "", "   aggregates", ""],
             # the same kinds of object with the directive written under its qualified name
             [".. mongodb:setting:: net.port", "", "   the port", ""],
             [".. py:class:: foo.Bar", "", "   a class", ""],
@@ -619,6 +622,12 @@ class C08(core.PropertyCheck):
                     # whatever whitespace separates the two (double space, tab, a line break inside the role text)
                     return (f"program-qualified option reference {o['target']!r} (line {o['rid']}) was not normalised to 'mongod.--port': "
                             "a defined option is then reported as not found")
+                if (case["kind"] == "text" and o["role"] == "method" and o["target"] == "db.coll.aggregate" and r["fileid"] is None and r["url"] is None
+                        and any(".. method:: db.coll.aggregate(" in text for _nm, text in case["files"])):
+                    # independent of how the directive strips the parameter list: a callable is known by its name, however its
+                    # signature is laid out in the source
+                    return (f"reference method:'db.coll.aggregate' (line {o['rid']}) on {p['slug']}: the method is defined (`.. method:: db.coll.aggregate(pipeline,` "
+                            "continued on the next line) but the reference has no destination")
                 key = norm(f"{o['domain']}:{o['role']}:{o['target']}")
                 local = defs.get(key, [])
                 ext = []
